@@ -666,3 +666,44 @@ def neq_to_not_eq():
         if not done:
             raise LookupError
     return tr
+
+
+# --------------------------------------------------------------------------- reaching definitions
+def reaching_defs(cfg, defs, key, at_stmt):
+    """definitions of `key` (Defs entries) that may reach `at_stmt`, plus the marker 'entry'
+    when the function entry reaches it without passing any definition (parameter/undefined)."""
+    ds = [d for d in defs.of(key) if d[0] in ("assign", "aug", "elem", "with", "except")]
+    stmts = []
+    for d in ds:
+        st = d[2]
+        while st is not None and not isinstance(st, ast.stmt):
+            st = parent(st)
+        if isinstance(st, ast.ExceptHandler):
+            pass
+        stmts.append(st)
+    out = []
+    for d, st in zip(ds, stmts):
+        if st is at_stmt and not isinstance(st, (ast.For, ast.AsyncFor, ast.While)):
+            continue
+        others = [s for s in stmts if s is not st and s is not at_stmt]
+        starts = list(cfg.g.successors(st)) if st in cfg.g else []
+        if any(n is at_stmt or reach(cfg, n, at_stmt, avoid_nodes=others + ([st] if st is not at_stmt else [])) for n in starts
+               if not any(n is o for o in others)):
+            out.append(d)
+    if reach(cfg, cfg.entry, at_stmt, avoid_nodes=[s for s in stmts if s is not at_stmt]):
+        out.append("entry")
+    return out
+
+
+def resolve_at(cfg, defs, e, at_stmt, depth=8):
+    """follow single reaching plain assignments of local names: -> (expr, stmt where it is evaluated)"""
+    while depth and isinstance(e, ast.Name) and defs.of(e.id):
+        rd = reaching_defs(cfg, defs, e.id, at_stmt)
+        if len(rd) == 1 and rd[0] != "entry" and rd[0][0] == "assign":
+            st = rd[0][2]
+            # tuple-unpacking assignments are recorded as 'elem'; a plain one gives the value
+            e, at_stmt = rd[0][1], st
+            depth -= 1
+        else:
+            break
+    return e, at_stmt
